@@ -158,6 +158,11 @@ pub fn enumerate(field_idx: usize, thorough: bool) -> Vec<AmtCase> {
                     out.push(mk(ccy, int.clone(), "no-separator"));
                 }
                 out.push(mk(ccy, format!("00{int},{frac}"), "leading-zeros"));
+                if nd >= 2 && (ni == 1 || ni == 7) {
+                    // a fraction that starts with zeros: 1,005 has three decimals, not one
+                    let z = "0".repeat(nd - 1);
+                    out.push(mk(ccy, format!("{int},{z}5"), "fraction-leading-zeros"));
+                }
             }
         }
         // length boundary: total length (digits + separator) at max-1, max, max+1, max+2 with few
@@ -382,7 +387,7 @@ pub fn oracle(c: &AmtCase, obs: &mut Obs) -> Vec<Violation> {
 }
 
 pub fn run(ctx: &Ctx) {
-    ctx.add_rule("enumerated grid: 20 amount/rate-bearing field types x ISO-4217 currencies (quick: 4-6 per minor-unit class 0/2/3/4 in full, every other code in a reduced sweep - all decimal counts, one magnitude - through 32B and 62F; thorough: all in full) x 0..5 decimals x integer digits {1,2,7,10,12,13,14,15} x spellings {comma, dot, no separator, no integer part, trailing zero, leading zeros}; for the currency-less fields (19, 36, 37H, 61) total lengths max-1 .. max+2 with 1-6 integer digits, with and without leading zeros; plus 21 non-decimal spellings a float parser would take; non-trivial = all; distinct by (field, content)");
+    ctx.add_rule("enumerated grid: 20 amount/rate-bearing field types x ISO-4217 currencies (quick: 4-6 per minor-unit class 0/2/3/4 in full, every other code in a reduced sweep - all decimal counts, one magnitude - through 32B and 62F; thorough: all in full) x 0..5 decimals x integer digits {1,2,7,10,12,13,14,15} x spellings {comma, dot, no separator, no integer part, trailing zero, leading zeros, fraction starting with zeros}; for the currency-less fields (19, 36, 37H, 61) total lengths max-1 .. max+2 with 1-6 integer digits, with and without leading zeros; plus 21 non-decimal spellings a float parser would take; non-trivial = all; distinct by (field, content)");
     ctx.exhaustive("the grid is enumerated completely");
     ctx.assume("ISO-4217 minor-unit table in harness/src/refs.rs; amounts with more than 15 significant digits are a separate class (an f64 cannot hold them)");
     let thorough = !ctx.quick();
